@@ -1,0 +1,201 @@
+//go:build verif
+
+package kernel
+
+// Trace hooks of the CoSi exchange for the verification framework in /verif (build tag "verif").
+// With the tag off the no-op twins in verif_nohook.go are compiled instead. When VERIF_NET_TRACE
+// names a file, every protocol step of every node in the process is appended to it as one JSON
+// line (through storage.VerifEmit: same file, same node numbering and per-node sequence counter
+// as the durable-write events of storage/verif_hook.go). An event is emitted after the step's
+// state change and before the step's messages are sent, so that the file order respects the
+// causal order of the exchange.
+//
+//	AN  proposer installed aggregator + verifier of a new snapshot (cosiSendAnnouncement)
+//	AK  signer installed a verifier for an announced snapshot (cosiHandleAnnouncement)
+//	CM  proposer recorded a commitment (cosiHandleCommitment)
+//	CH  proposer aggregated the commitments, answered itself (cosiHandleCommitment, threshold reached)
+//	FC  signer installed a verifier from a full challenge (cosiHandleFullChallenge)
+//	RP  signer computed its response = signed (cosiHandleChallenge)
+//	RS  proposer recorded a verified response (cosiHandleResponse)
+//	FIN proposer aggregated the responses into a verified certificate (cosiHandleResponse)
+//	HF  a node accepted the certificate of a finalization (cosiHandleFinalization)
+//	AB  a proposal / verifier was abandoned (abandonCosiSnapshot)
+//	RR  the proposer discarded all proposals at a round transition (resetCosiStateForNewRound)
+
+import (
+	"fmt"
+	"os"
+
+	"github.com/MixinNetwork/mixin/common"
+	"github.com/MixinNetwork/mixin/crypto"
+	"github.com/MixinNetwork/mixin/storage"
+)
+
+func verifShort(h crypto.Hash) string { return h.String()[:16] }
+
+// a hook does nothing unless a trace file is named, and never disturbs the caller
+func verifCosiGuard(f func()) {
+	if os.Getenv("VERIF_NET_TRACE") == "" {
+		return
+	}
+	defer func() { _ = recover() }()
+	f()
+}
+
+func verifCosiEvent(chain *Chain, ev string, s *common.Snapshot, m map[string]any) {
+	m["nid"] = verifShort(chain.node.IdForNetwork)
+	m["chain"] = verifShort(chain.ChainId)
+	if s != nil {
+		m["hash"], m["round"] = verifShort(s.Hash), s.RoundNumber
+		m["tsh"], m["tsl"] = s.Timestamp/1000000000, s.Timestamp%1000000000
+	}
+	switch ev { // the steps that install or sign a snapshot carry its transactions
+	case "AN", "AK", "FC", "RP", "FIN":
+		txs := []string{}
+		for _, h := range s.Transactions {
+			txs = append(txs, verifShort(h))
+		}
+		m["txs"] = txs
+	}
+	storage.VerifEmit(chain.node.persistStore, ev, m)
+}
+
+// the reservable slots a transaction spends (what LockInputs reserves)
+func verifCosiInputs(s *common.Snapshot, found map[crypto.Hash]*common.VersionedTransaction) [][]string {
+	ins := [][]string{}
+	for _, h := range s.Transactions {
+		keys := []string{}
+		if tx := found[h]; tx != nil {
+			for _, in := range tx.Inputs {
+				switch {
+				case in.Deposit != nil:
+					keys = append(keys, "d:"+verifShort(in.Deposit.UniqueKey()))
+				case in.Mint != nil:
+					keys = append(keys, fmt.Sprintf("m:%s:%d", in.Mint.Group, in.Mint.Batch))
+				case len(in.Genesis) > 0:
+				default:
+					keys = append(keys, fmt.Sprintf("u:%s:%d", verifShort(in.Hash), in.Index))
+				}
+			}
+		}
+		ins = append(ins, keys)
+	}
+	return ins
+}
+
+func verifCosiMembers(chain *Chain, s *common.Snapshot, m map[string]any) []crypto.Hash {
+	cids, _ := chain.ConsensusKeys(s.RoundNumber, s.Timestamp)
+	m["keys"] = len(cids)
+	m["nacc"] = len(chain.node.NodesListWithoutState(s.Timestamp, true))
+	m["pl"] = chain.IsPledging() && s.RoundNumber == 0
+	m["thrn"] = chain.node.ConsensusThreshold(s.Timestamp, false)
+	m["thrf"] = chain.node.ConsensusThreshold(s.Timestamp, true)
+	return cids
+}
+
+func verifCosiIds(cids []crypto.Hash, idx []int) []string {
+	ids := []string{}
+	for _, i := range idx {
+		if i >= 0 && i < len(cids) {
+			ids = append(ids, verifShort(cids[i]))
+		} else {
+			ids = append(ids, fmt.Sprintf("?%d", i))
+		}
+	}
+	return ids
+}
+
+func verifCosiAnnounced(chain *Chain, s *common.Snapshot, cd *CosiChainData) {
+	verifCosiGuard(func() {
+		m := map[string]any{"ins": verifCosiInputs(s, cd.FoundTxs)}
+		verifCosiMembers(chain, s, m)
+		verifCosiEvent(chain, "AN", s, m)
+	})
+}
+
+func verifCosiAcked(chain *Chain, m *CosiAction) {
+	verifCosiGuard(func() {
+		verifCosiEvent(chain, "AK", m.Snapshot, map[string]any{"want": len(m.data.WantTxs)})
+	})
+}
+
+func verifCosiCommitted(chain *Chain, m *CosiAction, ann *CosiAggregator) {
+	verifCosiGuard(func() {
+		verifCosiEvent(chain, "CM", ann.Snapshot, map[string]any{"peer": verifShort(m.PeerId),
+			"full": m.Action == CosiActionSelfFullCommitment, "cnt": len(ann.Commitments)})
+	})
+}
+
+func verifCosiChallenged(chain *Chain, ann *CosiAggregator, cosi *crypto.CosiSignature) {
+	verifCosiGuard(func() {
+		s := ann.Snapshot
+		m := map[string]any{"R": fmt.Sprintf("%x", cosi.Signature[:8]), "mask": fmt.Sprintf("%x", cosi.Mask),
+			"resps": len(ann.Responses)}
+		cids := verifCosiMembers(chain, s, m)
+		idx := []int{}
+		for i := range 64 {
+			if ann.Commitments[i] != nil {
+				idx = append(idx, i)
+			}
+		}
+		m["committers"] = verifCosiIds(cids, idx)
+		verifCosiEvent(chain, "CH", s, m)
+	})
+}
+
+func verifCosiFullChallenged(chain *Chain, m *CosiAction) {
+	verifCosiGuard(func() {
+		verifCosiEvent(chain, "FC", m.Snapshot, map[string]any{})
+	})
+}
+
+func verifCosiResponded(chain *Chain, m *CosiAction, s *common.Snapshot, response *[32]byte) {
+	verifCosiGuard(func() {
+		rh := crypto.Blake3Hash(response[:])
+		verifCosiEvent(chain, "RP", s, map[string]any{"ins": verifCosiInputs(s, m.data.FoundTxs),
+			"R": fmt.Sprintf("%x", m.Signature.Signature[:8]), "mask": fmt.Sprintf("%x", m.Signature.Mask),
+			"rsp": verifShort(rh)})
+	})
+}
+
+func verifCosiResponseAccepted(chain *Chain, m *CosiAction, agg *CosiAggregator) {
+	verifCosiGuard(func() {
+		verifCosiEvent(chain, "RS", agg.Snapshot, map[string]any{"peer": verifShort(m.PeerId),
+			"cnt": len(agg.Responses), "of": len(agg.Commitments)})
+	})
+}
+
+func verifCosiCertificate(chain *Chain, ev string, peer crypto.Hash, s *common.Snapshot, signers []crypto.Hash) {
+	m := map[string]any{"peer": verifShort(peer), "mask": fmt.Sprintf("%x", s.Signature.Mask)}
+	verifCosiMembers(chain, s, m)
+	ids := []string{}
+	for _, h := range signers {
+		ids = append(ids, verifShort(h))
+	}
+	m["signers"] = ids
+	verifCosiEvent(chain, ev, s, m)
+}
+
+func verifCosiFinalized(chain *Chain, s *common.Snapshot, signers []crypto.Hash) {
+	verifCosiGuard(func() {
+		verifCosiCertificate(chain, "FIN", chain.node.IdForNetwork, s, signers)
+	})
+}
+
+func verifCosiFinalizationAccepted(chain *Chain, m *CosiAction, signers []crypto.Hash) {
+	verifCosiGuard(func() {
+		verifCosiCertificate(chain, "HF", m.PeerId, m.Snapshot, signers)
+	})
+}
+
+func verifCosiAbandoned(chain *Chain, s *common.Snapshot) {
+	verifCosiGuard(func() {
+		verifCosiEvent(chain, "AB", s, map[string]any{})
+	})
+}
+
+func verifCosiRoundReset(chain *Chain) {
+	verifCosiGuard(func() {
+		verifCosiEvent(chain, "RR", nil, map[string]any{})
+	})
+}
